@@ -169,6 +169,7 @@ func (e *EventSubscription) lockEvents(locks int) {
 
 // processQueue is called by the cacheWorker
 func (e *EventSubscription) processQueue() {
+	verifGate("cache", e.ResourceName)
 	e.mu.Lock()
 	defer e.mu.Unlock()
 	var f func()
